@@ -424,6 +424,11 @@ impl G {
                 });
             }
         }
+        if self.r.chance(6) {
+            // a hook tells its own actor through the reference it was handed (from on_start: the first accepted message)
+            let uid = self.uid();
+            s.push(Step::TellSelf(Body::plain(uid)));
+        }
         if self.r.chance(self.p.p_kill_self) {
             s.push(Step::KillSelf);
         }
